@@ -683,9 +683,14 @@ def _send_from(T, tag, lazy):
         g = dict(st.ghost)
         g["gate"] = z3.BoolVal(False)
         s0 = St(st.env, st.heap, st.pc, g)
-        fr.on_raise(Exc("StopIteration", origin="callee"), s0.assume(pos >= n))
         fr.on_raise(Exc("Any", Opq(eng.fresh("source_exc", "V")), excluding=("StopIteration",)), s0)
         s1 = s0.assume(pos < n).with_cell(it.base, "pos", pos + 1)
+        if len(args) >= 2:
+            # next(iterable, default): the default is returned on exhaustion - an ITEM may be equal to it (nothing says a source
+            # never yields None), so a caller that tests for the default cannot tell the two apart
+            k(args[1], s0.assume(pos >= n))
+        else:
+            fr.on_raise(Exc("StopIteration", origin="callee"), s0.assume(pos >= n))
         return k(Opq(z3.Select(cell["seq"], pos)), s1)
 
     def gate_hook(eng, args, kw, st, fr, k, node):
